@@ -3,6 +3,9 @@
 //! Thin public wrappers around crate-private items so that an external harness can drive the
 //! real code. Nothing here changes behaviour; without the cfg flag this module does not exist.
 
+pub mod backoff;
+pub mod balancer;
 pub mod codec;
 pub mod engine;
+pub mod router;
 pub mod trie;
